@@ -52,7 +52,7 @@ partial def parseSNode (j : Json) : Except String SNode := do
     return .call inst ins
 partial def parseSInst (j : Json) : Except String SInst := do
   let key ← j.getObjValAs? Nat "key"
-  let out ← j.getObjValAs? Nat "out"
+  let out ← j.getObjValAs? (List Nat) "outs"
   let bodyJ ← j.getObjValAs? (Array Json) "body"
   let body ← bodyJ.toList.mapM parseSNode
   return .mk key body out
